@@ -38,6 +38,7 @@ pub fn repo_op() -> impl Strategy<Value = Op> {
         1 => (any::<u16>(), any::<u16>(), any::<u16>()).prop_map(|(a, b, c)| Op::BigWrite(a, b, c)),
         2 => any::<u16>().prop_map(Op::TailEdit),
         2 => any::<u16>().prop_map(Op::Rewrite),
+        2 => any::<u16>().prop_map(Op::EditOldMtime),
         1 => any::<u16>().prop_map(Op::BulkSmall),
     ]
 }
@@ -196,6 +197,7 @@ pub fn check(case: &Case, w: usize) -> CheckResult {
         .class_if(h.odd_name, "odd-name")
         .class_if(h.big, "big-file")
         .class_if(h.tail_edit, "tail-edit")
+        .class_if(h.old_mtime, "edit-with-old-mtime")
         .class_if(h.work.len() > 100, "changes>100")
         .class_if(h.commits.len() > 2, "commits>=2")
         .class_if(!case.ignore_out, "out-dir-not-ignored")
